@@ -22,6 +22,14 @@ CHECKS = {
          "deterministic simulation: seeded store/fetch/exists histories over real accessors on a simulated file system (SimFS raw-I/O seam), map-model refinement + tree-delta oracles, benign short-transfer injection",
          "Seeded search over operation histories (<=60 ops, several handles, writer x reader configurations, hostile names) with every raw I/O call simulated; each op is compared with a map model and the resulting tree. Sampling, not proof; right level because the property quantifies over histories and configurations and the state space is a file tree.",
          "Trusts SimFS's POSIX model (cross-checked against a real directory in sim/selftest.py), CPython io/gzip/pathlib running for real above the seam, and the stated assumptions (one MIME type per name, stores through the writer configuration only)."),
+ "C04": ("exploration",
+         "deterministic simulation: seeded chunk subsets x arrival orders x buffering strategies delivered to the real sharded writer on SimFS; resulting shard files parsed by an independent reader written from the sharded specification",
+         "Seeded search over (grid, sharding triple incl. >=64 total bits, encodings, subset kind, arrival orders, strategy); every produced tree is parsed by sim/specref/sharded.py (file name, slot placement, strictly increasing ids, ranges inside file and non-overlapping, bytes, strict gzip). Sampling, not proof.",
+         "Trusts the independent spec reader (cross-checked on hand-made vectors in the self-test) and SimFS; minishard_bits <= 10."),
+ "C05": ("exploration",
+         "deterministic simulation: the sharded writer as a reorder buffer -- same chunk set under K seeded arrival orders (all permutations for small sets in thorough) x both buffering strategies on fresh SimFS instances; reference-map read-back through a fresh accessor and byte-identity of the shard trees",
+         "Seeded search over arrival orders and subsets against a reference map; trees of all orders/strategies compared byte for byte; never-stored positions must not yield data. Exhaustive over permutations only for sets <= 6 chunks (thorough). Sampling otherwise.",
+         "Trusts SimFS (incl. simulated temp files of the on-disk strategy); reads only after close(); each chunk stored once."),
 }
 
 def main():
